@@ -50,6 +50,7 @@ func main() {
 		"plus requests of the server on the client side (roots/list and an unknown method on the Streamable listening stream / the legacy SSE stream / the child's stdout): the peer accepts the POST with the client's answer and stalls on it (no response / headers only / part of the body; a child that does not read), then Close(): the peer sees that POST's connection dropped within 2 s, census; " +
 		"plus the server half (raw TCP peers against the real Streamable HTTP and legacy SSE servers: handshake, listening stream, a tools/call blocking on its context; every connection then closed / reset; census), " +
 		"the same census in the configurations of the servers (no context function / one deriving from the context it is given / one returning a context of its own lineage / a cancellable application context, legacy SSE keep-alive on and off), a real client whose session the server forgets behind its back (DELETE from elsewhere, 404 to its next calls, census of its connections after Close), " +
+		"a peer of the Streamable server that stays connected and stops reading its listening stream (4 KiB receive buffer): 256 KiB notifications until a write blocks, then the stream's context ends by a DELETE from another connection / by a second GET that replaces the stream — the blocked sender returns and the old handler leaves within 2 s; " +
 		"plus server-issued requests (ListRoots / SendRequest from outside and from a tool handler, on the Streamable, legacy SSE and stdio servers) racing with the peer dropping its stream: refused (no stream), written to a dead connection (the stream's handler held at its scheduling point get:woken after the peer's reset / close), write blocked then reset, queue / message channel full (the peer stopped reading), waiting for an answer when every connection is reset, free-running races; once every request has returned the server's pending table must be empty; Close() on a live child, Close() right after Initialize (listening stream started afterwards), kill -9 + Close() with 64 calls pending (in a re-executed copy: a panic there is an observation, not a crash of the harness); " +
 		"every scenario's call outcomes, pending-table size and resource ledger after Close are diffed against the Lean model; model-free oracles: error within 2 s of the fault, return within 1 s of the complete answer (and of the end of the stream where the reader drains it), own nonce in every result, " +
 		"every scenario is bounded in time (a call that has not returned 6 s after the fault / 3 s after its complete answer is the observation 'hung': its goroutine is abandoned and the peer torn down; Close() 8 s; once a hang of a class of scenarios is confirmed the class runs with short ceilings and is skipped after 3 more occurrences; time budget for the whole component), " +
@@ -140,6 +141,9 @@ func enumerate(c *hk.Ctx) []scen {
 				// 404 to a request that carries the session id: the server has forgotten the session behind the client's back
 				x.Fault = "http404"
 				out = append(out, x)
+				// a non-200 answer whose error body stalls after its first bytes; the caller gives up
+				x.Fault, x.Ctx = "errBodyStall", "cancel"
+				out = append(out, x)
 				if cb.answered == 0 {
 					for _, f := range []string{"close", "reset"} { // the boundary before the request is read
 						x = b
@@ -204,6 +208,8 @@ func enumerate(c *hk.Ctx) []scen {
 			}
 			x = b
 			x.Where, x.Fault, x.Pos, x.Ctx = "post", "stall", "none", "cancel"
+			out = append(out, x)
+			x.Fault = "errBodyStall" // the POST is answered 503 and the error body stalls
 			out = append(out, x)
 			if cb.answered == 0 {
 				x = b
@@ -449,6 +455,7 @@ func run(c *hk.Ctx) {
 	special("serverSide", runServerSide)
 	special("serverRequests", runServerRequests)
 	special("serverConfigs", runServerConfigs)
+	special("stalledPeer", runStalledPeer)
 	special("doubleClose", runDoubleClose)
 	c.SetExtra("timing_s", timing)
 	c.SetExtra("solo_reruns", reruns)
